@@ -423,3 +423,39 @@ def regen(meta, outdir):
         else:
             os.remove(tmp)
     return True, out
+
+
+# ---------------------------------------------------------------- vm_compute cross-check
+
+def vm_sample(meta, outdir, trace, k, seed):
+    """Re-evaluate a sample of the traced cases inside Coq with vm_compute (guards the
+    extraction and the OCaml driver). Returns (n_checked, n_false, log)."""
+    import random
+    lines = [l for l in open(trace, errors="replace") if l.count("\t") == 2]
+    rnd = random.Random(seed)
+    if len(lines) > k:
+        lines = rnd.sample(lines, k)
+    sp = os.path.join(outdir, "vm-sample.txt")
+    open(sp, "w").write("".join(lines))
+    with open(sp) as fi:
+        p = subprocess.run([os.path.join(outdir, "model"), "--coq"], stdin=fi, stdout=subprocess.PIPE,
+                           stderr=subprocess.PIPE, text=True, timeout=600)
+    terms = p.stdout
+    n = terms.count("::\n")
+    if n == 0:
+        return 0, 0, "driver rendered no case"
+    lib = meta["coq"]["lib"]
+    hdr = meta.get("vm_header", "From Common Require Import Bytes.\nFrom %s Require Import Model.\n" % lib)
+    d = os.path.join(outdir, "vm")
+    os.makedirs(d, exist_ok=True)
+    src = os.path.join(d, "cases.v")
+    with open(src, "w") as f:
+        f.write("From Coq Require Import List NArith ZArith Bool.\nImport ListNotations.\n" + hdr)
+        f.write("Definition cases : list bool :=\n" + terms + "nil.\n")
+        f.write("Definition n_false := length (filter negb cases).\n")
+        f.write("Eval vm_compute in (length cases, n_false).\n")
+    rc, out = run(["coqc"] + qflags(lib) + ["-o", os.path.join(d, "cases.vo"), src], cwd=d, timeout=1800)
+    m = re.search(r"=\s*\((\d+),\s*(\d+)\)", out)
+    if rc != 0 or not m:
+        return 0, -1, out[-3000:]
+    return int(m.group(1)), int(m.group(2)), out[-500:]
